@@ -39,8 +39,11 @@ def run_case(args):
     rng = random.Random(f"c04-{seed}-{idx}")
     logic = LOGICS[idx % len(LOGICS)]
     opts = VECTORS[(idx // len(LOGICS)) % len(VECTORS)]
-    p, script, checks = gen.history(logic, rng, options=opts, big=(idx % 5 == 4), after_check=queries_for(opts),
-                                    named=":produce-unsat-cores true" in opts)
+    if idx % 2 == 1 and ":produce-unsat-cores true" not in opts:
+        p, script, checks = gen.clausal_history(logic, rng, options=opts, after_check=queries_for(opts))
+    else:
+        p, script, checks = gen.history(logic, rng, options=opts, big=(idx % 5 == 4), after_check=queries_for(opts),
+                                        named=":produce-unsat-cores true" in opts)
     res = {"idx": idx, "logic": logic, "options": opts, "script": script, "problems": [], "checks": 0, "fresh": 0}
     tp = common.WORK / f"c04-{os.getpid()}.trace"
     tp.unlink(missing_ok=True)
@@ -119,11 +122,19 @@ def run_case(args):
     return res
 
 
+def steered_case(args):
+    idx, seed, binary, timeout = args
+    import engine
+    c = engine.make_steered_case(idx, seed)
+    r = engine.run_case((c, binary, False, timeout))
+    return {"case": c, "res": r, "wrong": engine.wrong_answers(c, r)}
+
+
 def run(tier):
     chk = common.Check("C04", tier)
     chk.lean_obligations(THEOREMS)
     binary = common.opensmt_bin("hooks")
-    n = 130 if tier == "quick" else 3000
+    n = 200 if tier == "quick" else 4000
     with mp.Pool(min(common.JOBS, 14)) as pool:
         results = pool.map(run_case, [(i, chk.seed, binary, 8 if tier == "quick" else 30) for i in range(n)], chunksize=2)
     checks = fresh = timeouts = 0
@@ -141,6 +152,22 @@ def run(tier):
         for pr in r["problems"][:1]:
             chk.violation("incremental", f"{pr['what']} ({r['logic']} {r['options']})",
                           {"script": r["script"], "options": r["options"], "problem": pr})
+    ns = 150 if tier == "quick" else 4000
+    with mp.Pool(min(common.JOBS, 14)) as pool:
+        sres = pool.map(steered_case, [(i, chk.seed, binary, 8 if tier == "quick" else 30) for i in range(ns)], chunksize=2)
+    for x in sres:
+        c, r = x["case"], x["res"]
+        checks += len(r["answers"])
+        bad = [v for v in r["verdicts"] if not v.startswith("OK")]
+        chk.case(key=(c["idx"], len(r["answers"])), nontrivial=len(r["answers"]) >= 3,
+                 sample={"kind": "steered", "answers": r["answers"]} if len(r["answers"]) >= 6 else None)
+        chk.obligation(not x["wrong"] and not bad)
+        if x["wrong"]:
+            chk.violation("incremental", f"check #{x['wrong'][0][0]}: incremental answer {x['wrong'][0][1]}, exhaustive enumeration of "
+                          f"the active clauses says {x['wrong'][0][2]}", {"script": c["script"], "impl_answers": r["answers"], "expected": c["expected"]})
+        elif bad:
+            chk.violation("incremental", f"{bad[0]} (steered propositional history)",
+                          {"script": c["script"], "lean_verdict": bad[0], "failed_event": r.get("failed_line")})
     chk.assumptions = ["a fresh run of the same binary is the reference for the answer (its own correctness is C01/C02)"]
     return chk.finish(rule="one case = one push/pop/assert/check history (with model / core queries between checks for some "
                            "option vectors); non-trivial = at least three checks and a pop; each definitive answer is "
